@@ -408,10 +408,34 @@ def alg_step(case, reg, toks, t, fails):
         ended = False
         consumed = False
         fork = None
-        for ch in script:
+        for ch in script_tokens(script):
             if pi >= len(parts):
                 break
             p = parts[pi]
+            if ch[0] == "t" or ch == "z":
+                # nth(k) / last(): which element comes out depends on the (unspecified) order; it must
+                # be an element of the result that was not yielded before, and after last() — or an
+                # nth() that runs off the end — nothing may follow
+                pi += 1
+                remaining = len(want) - len(yielded)
+                k = int(ch[1:]) if ch[0] == "t" else max(remaining - 1, 0)
+                if p == "-":
+                    if k < remaining:
+                        fails.append("%s %s: %s returned None with %d items to come" % (reg, kind, ch, remaining))
+                    ended = True
+                    yielded += [c for c in want if c not in yielded]     # everything was consumed
+                else:
+                    m = re.match(r"\+@(\d+)\.(\d+)=K(\d+)\.(\d+)", p)
+                    if m:
+                        cls = int(m.group(3))
+                        if k >= remaining or cls in yielded or cls not in want:
+                            fails.append("%s %s: %s yielded %s; not yet yielded of the result: %s"
+                                         % (reg, kind, ch, p, sorted(set(want) - set(yielded))))
+                        skipped_unknown = True
+                if ch == "z":
+                    break
+                # the identity of the skipped elements is not observable: stop the per-item accounting
+                return True
             if ch == "n":
                 pi += 1
                 if p == "-":
@@ -607,6 +631,19 @@ def consume_step(case, reg, toks, t, fails):
     return True
 
 
+def script_tokens(script):
+    """script letters; `t<digit>` (nth) is one token."""
+    out, i = [], 0
+    while i < len(script):
+        if script[i] == "t" and i + 1 < len(script):
+            out.append(script[i:i + 2])
+            i += 2
+        else:
+            out.append(script[i])
+            i += 1
+    return out
+
+
 def iter_step(case, reg, toks, t, fails):
     pre = case.state[reg]["ents"]
     isset = reg.startswith("s")
@@ -623,14 +660,25 @@ def iter_step(case, reg, toks, t, fails):
     mut = kind in ("iter_mut", "values_mut")
     fork = None
     ended = False
-    for ch in script:
+    touched = set()          # positions whose value was written through the iterator
+    for ch in script_tokens(script):
         if pi >= len(parts):
             break
         p = parts[pi]
         rem = len(pre) - min(pos, len(pre))
+        if ch[0] == "t":
+            pos += int(ch[1:])       # nth(k): k entries are skipped (never handed out), then next
+            ch = "n"
+        elif ch == "z":
+            # last(): the final entry, everything before it is skipped
+            if rem > 0:
+                pos = len(pre) - 1
+            ch = "n"
+            ended = True
         if ch == "n":
             pi += 1
             if pos < len(pre):
+                touched.add(pos)
                 e = pre[pos]
                 val = (e[3] + add) if (mut and e[3] is not None) else e[3]
                 if kind in ("iter", "iter_mut"):
@@ -644,6 +692,8 @@ def iter_step(case, reg, toks, t, fails):
             elif p != "-":
                 fails.append("%s %s: yielded %s after the end" % (reg, kind, p))
             pos += 1
+            if ended:
+                break
         elif ch == "l":
             pi += 1
             if p.isdigit() and int(p) != rem:
@@ -685,8 +735,7 @@ def iter_step(case, reg, toks, t, fails):
                          % (reg, kind, fork, parts[-1], want))
     g = t["snaps"].get(reg)
     if g is not None:
-        n = min(pos, len(pre))
-        want = [(e[0], e[1], e[2], (e[3] + add) if (mut and i < n and e[3] is not None) else e[3]) for i, e in enumerate(pre)]
+        want = [(e[0], e[1], e[2], (e[3] + add) if (mut and i in touched and e[3] is not None) else e[3]) for i, e in enumerate(pre)]
         if g["ents"] != want:
             fails.append("%s after %s: holds %s, expected %s" % (reg, kind, g["ents"], want))
     return True
